@@ -23,6 +23,8 @@ LIBRARY = [
     ['def ident(v):', '    return v'],
     ['def kw(a, b=2, c=3):', "    print(a, b, c, sep='|')", '    return a * 100 + b * 10 + c'],
     ['def mutate(lst):', '    lst.append(99)', '    return lst'],
+    ['def init_state(v):', '    global state_box', '    state_box = [v, v]', '    return len(state_box)'],
+    ['def read_state():', '    return state_box[0]'],
     ['counter = 0'],
     ['def tick():', '    global counter', '    counter += 1', '    return counter'],
 ]
@@ -31,7 +33,7 @@ LIB_FUNCS = {
     # name: list of argument generators (kinds)
     'echo': ['any'], 'ask': ['prompt'], 'ask_twice': [], 'quiet': ['int', 'int'], 'boom': ['int0'],
     'chatty': ['small'], 'noeol': ['str'], 'blank': [], 'swallow': ['int0'], 'writer': ['str'],
-    'size': ['seq'], 'ident': ['any'], 'mutate': ['list'], 'tick': [], 'kw': ['int'],
+    'size': ['seq'], 'ident': ['any'], 'mutate': ['list'], 'tick': [], 'kw': ['int'], 'init_state': ['int'], 'read_state': [],
 }
 
 
